@@ -495,6 +495,38 @@ static std::vector<Op<C>> alphabet(std::size_t cap)
                                m.ids.insert(m.ids.begin() + static_cast<long>(k), id);
                        } });
     }
+    if constexpr (C)
+    {
+        // the argument aliases an element of the same container (as std::vector supports)
+        for (std::size_t k = 0; k <= cap; ++k)
+            for (int which = 0; which < 2; ++which)
+            {
+                std::string nm = "emplace(begin+" + std::to_string(k) + "," + (which ? "self.back()" : "self.front()") + ")";
+                ops.push_back({ nm, [k, which, nm](World<C>& w) {
+                                   auto& m = w.P().m;
+                                   if (m.ids.empty())
+                                       return;
+                                   std::size_t j = which ? m.ids.size() - 1 : 0;
+                                   int id = m.ids[j];
+                                   bool ok = k <= m.ids.size() && m.ids.size() < m.cap;
+                                   const E& ref = (*w.P().v)[j];
+                                   if (call(w, nm, ok ? Guard::must_succeed : Guard::must_raise,
+                                            [&] { w.P().v->emplace(w.P().v->begin() + k, ref); }))
+                                       m.ids.insert(m.ids.begin() + static_cast<long>(k), id);
+                               } });
+            }
+        ops.push_back({ "push_back(self.front())", [full](World<C>& w) {
+                           auto& m = w.P().m;
+                           if (m.ids.empty())
+                               return;
+                           int id = m.ids[0];
+                           bool f = full(w);
+                           const E& ref = (*w.P().v)[0];
+                           if (call(w, "push_back(self.front())", f ? Guard::must_raise : Guard::must_succeed,
+                                    [&] { w.P().v->push_back(ref); }))
+                               m.ids.push_back(id);
+                       } });
+    }
     for (std::size_t k = 0; k <= cap; ++k)
     {
         std::string nm = "erase(begin+" + std::to_string(k) + ")";
